@@ -361,3 +361,44 @@ B("B84", "C13-WHILE", [(BLK, '''            if sd.node_data(node)["expanded"]:
 ''', '')], "block expansion reprocesses expanded nodes")
 V("V85", "DFS loop test written as truthiness", edits=[(DFS, "    while len(stack) > 0:", "    while stack:")])
 V("V86", "debug print added inside loops", edits=[(BFS, "            for s in successors:\n                if s not in seen:", "            for s in successors:\n                if sd.config[\"debug\"]:\n                    print(s)\n                if s not in seen:")])
+
+
+# ------------------------------------------------------------------------------------------ C08
+B("B12", "C08-K1", [(CAND, "        return [candidate_states[0] | node_space]", "        return [candidate_states[0]]", 2)],
+  "single candidate returned in reduced coordinates")
+B("B13", "C08-K2", [(CAND, '''        if len(candidate_states) == sd.config["attractor_candidates_limit"]:
+            raise RuntimeError(''', '''        if len(candidate_states) > sd.config["attractor_candidates_limit"]:
+            raise RuntimeError(''')], "truncated list accepted when not greedy (> instead of ==)")
+B("B14", "C08-K2", [(CAND, "                    solution_limit=len(candidate_states_zero),", "                    solution_limit=len(candidate_states),")],
+  "var=1 list limited by the length of the previous candidate list")
+B("B16", "C08-K6", [(CAND, "                retained_set = retained_set_2\n                candidate_states = candidate_states_2", "                candidate_states = candidate_states_2")],
+  "greedy: candidates replaced without the retained set")
+B("B17", "C08-K4", [(CAND, '''            state_bdd = graph.mk_subspace(state).to_bdd()
+            candidates_bdd = candidates_bdd.l_and_not(state_bdd)
+''', '''            state_bdd = graph.mk_subspace(state).to_bdd()
+''')], "avoid branch: current state not subtracted before its walk")
+B("B18", "C08-K4", [(CAND, '''            if is_valid_candidate:
+                # If we cannot rule out the candidate, we have to put it back''', '''            else:
+                is_valid_candidate = False
+            if is_valid_candidate:
+                # If we cannot rule out the candidate, we have to put it back''')], "candidate dropped when the step budget runs out")
+B("B19", "C08-K5", [(SD, 'nfvs = feedback_vertex_set(percolated_network, parity="negative")', 'nfvs = feedback_vertex_set(percolated_network, parity="positive")')],
+  "positive FVS used as NFVS")
+B("B87", "C08-K1", [(CAND, '''        if not node_is_pseudo_minimal:
+            if sd.config["debug"]:
+                print(
+                    f"[{node_id}] > Attractor candidates done: empty NFVS in a non-minimal space."
+                )
+            return []''', '''        if True:
+            if sd.config["debug"]:
+                print(
+                    f"[{node_id}] > Attractor candidates done: empty NFVS in a non-minimal space."
+                )
+            return []''')], "empty NFVS shortcut also taken for pseudo-minimal nodes")
+B("B88", "C08-K3", [(CAND, '''    retained_set = make_heuristic_retained_set(
+        graph_reduced, node_nfvs, child_motifs_reduced
+    )''', '''    retained_set = make_heuristic_retained_set(
+        graph_reduced, node_nfvs, child_motifs_reduced
+    )
+    pn_reduced = sd.petri_net''')], "enumeration on the global Petri net")
+B("B89", "C08-K2", [(ASE, "                solution_limit=1,", "                solution_limit=0,")], "attractor-seed expansion decides emptiness from a zero-limit enumeration")
